@@ -80,6 +80,12 @@ class CSVFormat(FileFormat):
             quoteChar='"',
             skipInitialSpace=False
         )
+        # nulls are written as empty cells: the schema has to list '' among its missing values
+        # (it does by default; an explicit missingValues without it would make nulls unreadable)
+        schema = descriptor.get('schema') or {}
+        missing_values = schema.get('missingValues')
+        if missing_values is not None and cls.NULL_VALUE not in missing_values:
+            schema['missingValues'] = list(missing_values) + [cls.NULL_VALUE]
         super(CSVFormat, cls).prepare_resource(resource)
 
     def write_transformed_row(self, transformed_row):
